@@ -66,8 +66,6 @@ package linux
 //vc:  ensures[C06] @missingBannerRecorded err == nil ==> (markerMissing ==> len(s.errUnmanaged) > 0)
 
 // ---- C16 ----
-//vc:maprange[C16] (*config).MergeSpoc 1 "for tName, bChains := range b.iptables" accumulate merges table tName into a.iptables[tName] only; Abort only changes the error text
-//vc:maprange[C16] (*config).MergeSpoc 2 "for cName, bChain := range bChains" accumulate merges chain cName into aChains[cName] only
 //vc:maprange[C16] normalizeIPTables 1 "for k, v := range pairs" accumulate each option value is normalised from its own value and stored under its own key
 
 // ---- C05 ----
